@@ -104,8 +104,15 @@ def run_property(pid, tier, write=True, root=None):
         for ln, what, owner in m.forbidden_in:
             if what.startswith("decorator @") and owner in decorated_ok:
                 continue        # the decorator was applied by evaluating it: the check analysed the function through its wrapper
+            if owner is not None and owner.endswith(".*"):
+                if any(v.startswith(owner[:-1]) for v in visited):
+                    forb.append((m.relpath, ln, what))
+                continue
             if (owner is not None and owner in visited) or (owner is None and m.name in vmods and what == "star import"):
                 forb.append((m.relpath, ln, what))
+    for rel, ln, what, affected in prog.rebinds:
+        if any(v == affected or v.startswith(affected + ".") for v in visited):
+            forb.append((rel, ln, what + " (the analysed function is not what its name refers to at run time)"))
     for rel, ln, what in forb:
         rep.unk("DYNAMIC-FEATURE", {"file": rel, "line": ln, "function": "-", "construct": what},
                 "construct outside the modelled Python subset")
